@@ -5,6 +5,8 @@ package main
 import (
 	"fmt"
 	"go/token"
+	"go/types"
+	"sort"
 	"strings"
 
 	"golang.org/x/tools/go/ssa"
@@ -216,7 +218,7 @@ func checkC11(c *Ctx, r *Report) {
 			sDesc := "1"
 			for _, p := range E.Params {
 				if _, uses := v.Coef["param:"+p.Name()]; uses {
-					want = linVar("param:" + p.Name()).add(linConst(d), 1)
+					want = linVar("param:"+p.Name()).add(linConst(d), 1)
 					sDesc = p.Name()
 				}
 			}
@@ -234,6 +236,8 @@ func checkC11(c *Ctx, r *Report) {
 	// C11.frames: program counters are symbolised only through runtime.CallersFrames (or runtime.Caller), the APIs that
 	// expand inlined frames; runtime.FuncForPC/(*Func).FileLine attribute a pc inside an inlined body to the wrong line
 	c.checkFrameAPI(r, ro)
+	c.checkFrameCache(r, ro)
+	c.checkCallerSetters(r)
 	// C11.disabled: File/Line of the event are assigned only from look-up results obtained under enableCaller
 	c.checkCallerDisabled(r, R)
 }
@@ -425,4 +429,146 @@ func (c *Ctx) resetClears(field string) bool {
 		}
 	})
 	return ok
+}
+
+// checkFrameCache: a cache of symbolised frames below the recorder is keyed by the program counter itself — the
+// full-width uintptr read from the Callers buffer, the same value at the look-up and at the insertion, with no
+// arithmetic or narrowing on the way (two call sites must never share an entry).
+func (c *Ctx) checkFrameCache(r *Report, ro *Roles) {
+	type site struct {
+		in  ssa.Instruction
+		key ssa.Value
+		op  string
+	}
+	byFn := map[*ssa.Function][]site{}
+	for f := range c.reach(ro.Recorder) {
+		eachInstr(f, func(in ssa.Instruction) {
+			call, ok := in.(*ssa.Call)
+			if !ok {
+				return
+			}
+			s := call.Common().StaticCallee()
+			if s == nil || !(funcIs(s, "sync", "Map", "Load") || funcIs(s, "sync", "Map", "Store") || funcIs(s, "sync", "Map", "LoadOrStore")) || len(call.Call.Args) < 2 {
+				return
+			}
+			k := call.Call.Args[1]
+			if mi, ok := k.(*ssa.MakeInterface); ok {
+				k = mi.X
+			}
+			byFn[f] = append(byFn[f], site{in, k, s.Name()})
+		})
+	}
+	for _, f := range sortedFuncs(func() map[*ssa.Function]bool {
+		m := map[*ssa.Function]bool{}
+		for f := range byFn {
+			m[f] = true
+		}
+		return m
+	}()) {
+		r.SawFunc(f)
+		key := "C11.cache-key:" + fname(f)
+		var bad []string
+		var first ssa.Value
+		for _, st := range byFn[f] {
+			if b, ok := st.key.Type().Underlying().(*types.Basic); !ok || b.Kind() != types.Uintptr {
+				bad = append(bad, fmt.Sprintf("%s at %s is keyed by a %s, not by the uintptr program counter: call sites whose counters agree in the kept bits share one entry and report each other's location", st.op, c.instrPos(st.in), st.key.Type()))
+				continue
+			}
+			switch st.key.(type) {
+			case *ssa.Convert, *ssa.BinOp:
+				bad = append(bad, fmt.Sprintf("%s at %s is keyed by a value computed from the program counter (%s), not by the counter itself", st.op, c.instrPos(st.in), c.prov(st.key, &Frame{Fn: f})))
+				continue
+			}
+			if first == nil {
+				first = st.key
+			} else if st.key != first {
+				bad = append(bad, fmt.Sprintf("%s at %s uses a different key value than the other cache operations", st.op, c.instrPos(st.in)))
+			}
+		}
+		if len(bad) > 0 {
+			r.Fail(key, c.pos(f.Pos()), "%s", strings.Join(bad, "; "))
+		} else {
+			r.OK(key, "%d cache operations keyed by one full-width program counter value", len(byFn[f]))
+		}
+	}
+	r.Count("frame_cache_sites", len(byFn))
+}
+
+// checkCallerSetters: every registered configuration property writes a package variable of its own (two properties
+// writing the same variable means one of them silently changes the other's setting), and the variable that switches
+// caller look-up on and off is the one written by the property documented as `enableCaller`.
+func (c *Ctx) checkCallerSetters(r *Report) {
+	writes := map[*ssa.Global][]string{}
+	byName := map[string][]*ssa.Global{}
+	n := 0
+	for _, f := range c.Funcs {
+		eachInstr(f, func(in ssa.Instruction) {
+			call, ok := in.(*ssa.Call)
+			if !ok {
+				return
+			}
+			reg := call.Common().StaticCallee()
+			if reg == nil || !c.inModule(reg) || len(call.Call.Args) != 2 {
+				return
+			}
+			name, ok := constString(call.Call.Args[0])
+			if !ok {
+				return
+			}
+			sig, ok := call.Call.Args[1].Type().Underlying().(*types.Signature)
+			if !ok || sig.Params().Len() != 1 || !isStringType(sig.Params().At(0).Type()) || sig.Results().Len() != 1 {
+				return
+			}
+			var fn *ssa.Function
+			switch x := call.Call.Args[1].(type) {
+			case *ssa.MakeClosure:
+				fn = x.Fn.(*ssa.Function)
+			case *ssa.Function:
+				fn = x
+			}
+			if fn == nil {
+				return
+			}
+			n++
+			r.SawFunc(fn)
+			seen := map[*ssa.Global]bool{}
+			for g := range c.reach(fn) {
+				eachInstr(g, func(j ssa.Instruction) {
+					if st, ok := j.(*ssa.Store); ok {
+						if gl, ok := st.Addr.(*ssa.Global); ok && gl.Pkg == c.LogS && !seen[gl] {
+							seen[gl] = true
+							writes[gl] = append(writes[gl], name)
+							byName[name] = append(byName[name], gl)
+						}
+					}
+				})
+			}
+		})
+	}
+	key := "C11.setters:properties"
+	var bad []string
+	for gl, names := range writes {
+		if len(names) > 1 {
+			sort.Strings(names)
+			bad = append(bad, fmt.Sprintf("package variable %s is written by the setters of %d properties (%s)", gl.Name(), len(names), strings.Join(names, ", ")))
+		}
+	}
+	if ec := c.names().EnableCaller; ec != nil && len(byName["enableCaller"]) > 0 {
+		hit := false
+		for _, gl := range byName["enableCaller"] {
+			if gl == ec {
+				hit = true
+			}
+		}
+		if !hit {
+			bad = append(bad, "the property `enableCaller` does not write the variable that switches the caller look-up in the recorder")
+		}
+	}
+	sort.Strings(bad)
+	if len(bad) > 0 {
+		r.Fail(key, "", "%s", strings.Join(bad, "; "))
+	} else {
+		r.OK(key, "%d registered property setters, each writing its own package variable; enableCaller writes the look-up switch", n)
+	}
+	r.Floor("registered property setters", n, 2)
 }
